@@ -17,8 +17,8 @@ RULE = (
     "non-trivial = >=2 startpoints and >=1 multi-input gate; distinct = canonical circuit + assumptions"
 )
 BUDGET = {
-    "quick": {"workers": 16, "cases": 140, "secs": 60, "min_cases": 1120},
-    "thorough": {"workers": 16, "rounds": 4, "cases": 400, "secs": 420, "min_cases": 12800},
+    "quick": {"workers": 16, "cases": 140, "secs": 60, "case_secs": 90, "min_cases": 1120},
+    "thorough": {"workers": 16, "rounds": 4, "cases": 260, "secs": 420, "case_secs": 90, "min_cases": 12800},
 }
 ANCHORS = ["sat:model_count", "props:signal_probability", "sat:approx_model_count"]
 
@@ -72,6 +72,10 @@ def gen(rng, ctx):
         sel = rng.sample(pool, rng.randint(0, min(len(pool), 3))) if pool else []
         assumps.append({n: rng.random() < 0.5 for n in sel})
     probes = rng.sample(nodes, min(3, len(nodes)))
+    if ni >= 9:
+        # thousands of solver calls per count: one assumption set and one probe keep the case bounded
+        assumps = [a for a in assumps if a][:1] or assumps[:1]
+        probes = probes[:1]
     return {"c": cd, "kind": kind, "assumps": assumps, "probes": probes}
 
 
